@@ -346,18 +346,18 @@ Proof. vm_compute. split; reflexivity. Qed.
 
 (* ---- fail_on ----
    SkipTo's documentation: "fail_on - define expressions that are not allowed to be included in the skipped test; if found
-   before the target expression is found, the SkipTo is not a match".  This is the reading of `peg_skip_scan`.  SkipTo.parseImpl
-   instead leaves its scan loop with `break` when fail_on matches, which skips the `else:` clause raising the exception:
-   the SkipTo then SUCCEEDS with the text skipped so far (include=False).  Witness: the dump of SkipTo(",", fail_on="a") on
-   "ba,": the faithful model, like the implementation, answers ['b'] (end 1); the reading says no match.  Hence fail_on is
-   outside `in_class` and `in_ref_class`. *)
+   before the target expression is found, the SkipTo is not a match".  This is the reading of `peg_skip_scan`.  Until /repo
+   80e8de9 SkipTo.parseImpl left its scan loop with `break` when fail_on matched, skipping the `else:` clause that raises, and
+   the SkipTo SUCCEEDED with the text skipped so far (finding F-01b: SkipTo(",", fail_on="a") on "ba," answered ['b']); the
+   repaired code raises, and model and reading agree on the witness.  fail_on is still outside `in_class` (not proved). *)
 Definition ex_skip_failon : expr :=
   Skip (oc_at 1 false true true false true 12) [] (Tok (oc_at 3 false true true false true 3) [] (KLit [44%N])) false []
     (Some (Tok (oc_at 2 false true true false true 3) [] (KLit [97%N]))).
-Example C01_skipto_fail_on_refuted :
-  exists r : pres,
-    drun (parse (step []) 5) (parse_string [32; 10; 9; 13]%N ex_skip_failon false [98; 97; 44]%N false) = Some (Entry.POk r)
-    /\ pr_as_list r = [TStr [98%N]]
-    /\ peg [] [98; 97; 44]%N 5 ex_skip_failon 0 = PFail
-    /\ in_class [] ex_skip_failon = false.
-Proof. eexists. vm_compute. repeat split. Qed.
+Example C01_skipto_fail_on_instance :
+  (exists x, drun (parse (step []) 5) (parse_string [32; 10; 9; 13]%N ex_skip_failon false [98; 97; 44]%N false) = Some (Entry.PErr x)
+             /\ xk x = XParse)
+  /\ peg [] [98; 97; 44]%N 5 ex_skip_failon 0 = PFail
+  /\ (exists r, drun (parse (step []) 5) (parse_string [32; 10; 9; 13]%N ex_skip_failon false [98; 98; 44]%N false) = Some (Entry.POk r)
+                /\ pr_as_list r = [TStr [98%N; 98%N]])
+  /\ in_class [] ex_skip_failon = false.
+Proof. vm_compute. repeat split; try (eexists; split; reflexivity). Qed.
